@@ -49,6 +49,33 @@ Definition table_ok (prog : cmd) (rel : string) (rows : list fault_row) : bool :
   && forallb (fun S => existsb (fun r => set_eqs S (row_set r)) rows)
              (filter (fun S => negb (mem rel S)) (subsets (names prog))).
 
+(* ---------- (1b) the constructor's critical section ---------- *)
+(* Creating (or re-creating) the library file is a write to shared state: it must happen with the inter-process
+   write lock held, and -- unless the caller asked for overwrite -- the decision "the file is not there" must have
+   been taken inside the same lock hold (a look before the lock may be stale: another process can create the
+   library and complete a writing session in between, which the creation would then destroy). *)
+Fixpoint ctor_scan (overwrite held checked : bool) (evs : list string) : bool :=
+  match evs with
+  | [] => negb held                                   (* the lock is released at the end *)
+  | e :: r =>
+      if String.eqb e "acquire" then negb held && ctor_scan overwrite true false r
+      else if String.eqb e "release" then held && ctor_scan overwrite false false r
+      else if String.eqb e "exists" then ctor_scan overwrite held (checked || held) r
+      else if String.eqb e "create" then held && (overwrite || checked) && ctor_scan overwrite held checked r
+      else false
+  end.
+Definition ctor_row_ok (r : bool * bool * bool * list string) : bool :=
+  let '(ex, ov, ro, evs) := r in
+  ctor_scan ov false false evs
+  && (if ex then Bool.eqb (existsb (String.eqb "create") evs) ov     (* an existing library is re-created iff overwrite *)
+      else existsb (String.eqb "create") evs).                       (* a missing one is created *)
+Definition ctor_table_ok (rows : list (bool * bool * bool * list string)) : bool :=
+  forallb ctor_row_ok rows
+  && forallb (fun c : bool * bool * bool => existsb (fun r => let '(ex, ov, ro, _) := r in let '(a, b, d) := c in
+                                              Bool.eqb ex a && Bool.eqb ov b && Bool.eqb ro d) rows)
+             [(false, false, false); (false, false, true); (false, true, false); (false, true, true);
+              (true, false, false); (true, false, true); (true, true, false); (true, true, true)].
+
 (* ---------- (2) processes, lock, sessions ---------- *)
 Inductive lk := LFree | LRead | LWrite.
 Record proc := mkp { plock : lk; pcur : option nat }.
